@@ -181,7 +181,10 @@ def settle(ents):
 UNDEC = "\udcff\udcfe"      # os.fsdecode(b"\xff\xfe")
 NAMES = ["a", "b", "sub", "x y", "ü", "index.gmi", "index.gemini", "f.gmi", "é%41", "éA", "p;q", "c%20d", "c d",
          "日本", UNDEC, "A.GMI", ".gmi", "d.", "%", "%zz", "back\\slash", "q?", "h#", "ctl\x01", "n" * 200, "t.GeMiNi",
-         "..x", "x..", "...", "\U0001f600", "e.txt"]
+         "..x", "x..", "...", "\U0001f600", "e.txt",
+         # names that are not in Unicode normalisation form C (the file system compares bytes): decomposed accents,
+         # conjoining Hangul jamo, singleton code points; and their normalised twins living next to them
+         "u\u0308", "e\u0301.gmi", "\u00e9.gmi", "\u1100\u1161", "\uac00", "\u2126", "\u03a9", "\u212b", "\ufb01le", "a\u0323\u0307"]
 MARK = "zzoutside"          # every directory outside the root holds an entry with this name prefix
 
 
